@@ -36,6 +36,8 @@ C2 ::= CHOICE { a INTEGER, b INTEGER, c BOOLEAN }
 C3 ::= CHOICE { a T, b T, c U, d U }
 C4 ::= CHOICE { a SEQUENCE { p NULL }, b SEQUENCE OF T, c SEQUENCE OF T, ..., d UTF8String }
 C5 ::= CHOICE { r C5, n NULL }
+C6 ::= CHOICE { small SEQUENCE OF INTEGER (0..10), large SEQUENCE OF INTEGER (0..200), flag BOOLEAN }
+C7 ::= CHOICE { x SET OF INTEGER (0..10), y SET OF INTEGER (0..10), z SEQUENCE OF SEQUENCE { q NULL }, w SEQUENCE OF SEQUENCE { q NULL } }
 S ::= SET { a [0] C1, b [1] SEQUENCE { c C2 OPTIONAL } }
 v1 INTEGER ::= 5
 v2 INTEGER (0..10) ::= 5
